@@ -147,12 +147,29 @@ type Solver struct {
 	Log       io.Writer
 	CrossCheck bool
 	Disagree  []string
+	StageMs   int
+	wins      []int
+	mu        sync.Mutex
+}
+
+// order: the backend with the most wins so far goes first.
+func (s *Solver) order() []int {
+	idx := make([]int, len(backends))
+	for i := range idx {
+		idx[i] = i
+	}
+	for i := 1; i < len(idx); i++ {
+		for j := i; j > 0 && s.wins[idx[j]] > s.wins[idx[j-1]]+20; j-- {
+			idx[j], idx[j-1] = idx[j-1], idx[j]
+		}
+	}
+	return idx
 }
 
 var solverStartMu sync.Mutex
 
 func NewSolver(timeoutMs int) *Solver {
-	s := &Solver{TimeoutMs: timeoutMs, cache: map[string]Result{}}
+	s := &Solver{TimeoutMs: timeoutMs, cache: map[string]Result{}, StageMs: 400, wins: make([]int, len(backends))}
 	s.Stats.TimeS = map[string]float64{}
 	s.Stats.ByBack = map[string]int{}
 	s.procs = make([]*proc, len(backends))
@@ -343,27 +360,82 @@ func (s *Solver) check(asserts []*Term, vals []*Term, useCache bool) (Result, ma
 	s.Stats.Queries++
 	res := Unknown
 	var model map[string]ModelVal
-	var first Result = Unknown
-	answered := 0
-	for i := range backends {
-		r, m := s.runOn(i, live, vals)
-		if r == Unknown {
-			continue
-		}
-		answered++
-		if answered == 1 {
-			first, res, model = r, r, m
-			s.Stats.ByBack[backends[i].name]++
-			if !s.CrossCheck {
-				break
+	type ans struct {
+		i int
+		r Result
+		m map[string]ModelVal
+	}
+	ch := make(chan ans, len(backends))
+	launched := make([]bool, len(backends))
+	launch := func(i int) {
+		launched[i] = true
+		go func() {
+			r, m := s.runOn(i, live, vals)
+			ch <- ans{i, r, m}
+		}()
+	}
+	order := s.order()
+	launch(order[0])
+	pending := 1
+	stage := time.NewTimer(time.Duration(s.StageMs) * time.Millisecond)
+	defer stage.Stop()
+	var answers []ans
+loop:
+	for pending > 0 {
+		select {
+		case a := <-ch:
+			pending--
+			if a.r != Unknown {
+				answers = append(answers, a)
+				if !s.CrossCheck || len(answers) >= 2 {
+					break loop
+				}
 			}
-			continue
+			// primary gave up: start the others now
+			for _, i := range order[1:] {
+				if !launched[i] {
+					launch(i)
+					pending++
+				}
+			}
+		case <-stage.C:
+			for _, i := range order[1:] {
+				if !launched[i] {
+					launch(i)
+					pending++
+				}
+			}
 		}
-		if r != first {
-			s.Disagree = append(s.Disagree, fmt.Sprintf("%s=%v vs first=%v on %s", backends[i].name, r, first, cacheKey(live)))
+	}
+	if pending > 0 {
+		// cancel the stragglers: kill their processes and drain
+		for i, l := range launched {
+			if !l {
+				continue
+			}
+			done := false
+			for _, a := range answers {
+				if a.i == i {
+					done = true
+				}
+			}
+			if !done && s.procs[i] != nil {
+				s.procs[i].kill()
+			}
+		}
+		for pending > 0 {
+			<-ch
+			pending--
+		}
+	}
+	if len(answers) > 0 {
+		res, model = answers[0].r, answers[0].m
+		s.Stats.ByBack[backends[answers[0].i].name]++
+		s.wins[answers[0].i]++
+		if len(answers) > 1 && answers[1].r != answers[0].r {
+			s.Disagree = append(s.Disagree, fmt.Sprintf("%s=%v vs %s=%v on %s", backends[answers[0].i].name, answers[0].r, backends[answers[1].i].name, answers[1].r, cacheKey(live)))
 			res = Unknown
 		}
-		break
 	}
 	switch res {
 	case Sat:
@@ -385,7 +457,11 @@ func (s *Solver) runOn(i int, asserts []*Term, vals []*Term) (Result, map[string
 		return Unknown, nil
 	}
 	t0 := time.Now()
-	defer func() { s.Stats.TimeS[p.be.name] += time.Since(t0).Seconds() }()
+	defer func() {
+		s.mu.Lock()
+		s.Stats.TimeS[p.be.name] += time.Since(t0).Seconds()
+		s.mu.Unlock()
+	}()
 	q := s.buildQuery(p, asserts, vals)
 	if p.be.timeoutOpt != "" {
 		q = fmt.Sprintf(p.be.timeoutOpt, s.TimeoutMs) + "\n" + q
